@@ -94,6 +94,19 @@ GDrawEach == /\ ~drawn /\ GenMode = "each"
                             cmds |-> IF p = 0 THEN <<c>> ELSE <<CHOOSE f \in EachFirst : TRUE, c>>]
              /\ drawn' = TRUE
              /\ UNCHANGED <<vars, ncmd, genv, hist, iname>>
+\* "each" also: directed sequences that exercise the recorded findings X03-1, X03-2, X03-3 in every run
+NoFault == [cmd |-> 0, at |-> 0, kind |-> "write"]
+Directed == <<
+  [cmds |-> <<[Create(<<"S1:a64">>, <<>>) EXCEPT !.dplat = "linux/amd64/bad!">>, fault |-> NoFault],
+  [cmds |-> <<[Create(<<"S1:a64">>, <<>>) EXCEPT !.digs = <<"armv7">>], Add(<<"S1:arm64">>, <<>>)>>,
+   fault |-> [cmd |-> 2, at |-> 1, kind |-> "read"]],
+  [cmds |-> <<[Create(<<"S1:armv7">>, <<>>) EXCEPT !.dann = <<KV("b", "")>>],
+              [Add(<<"S1:armv7">>, <<>>) EXCEPT !.dann = <<KV("a", "1")>>]>>, fault |-> NoFault] >>
+GDrawDirected == /\ ~drawn /\ GenMode = "each"
+                 /\ \E d \in DOMAIN Directed :
+                      draws' = [n |-> Len(Directed[d].cmds), fault |-> Directed[d].fault, cmds |-> Directed[d].cmds]
+                 /\ drawn' = TRUE
+                 /\ UNCHANGED <<vars, ncmd, genv, hist, iname>>
 GBegin == /\ drawn /\ ncmd < draws.n
           /\ Begin(Fix(draws.cmds[ncmd + 1]))
           /\ ncmd' = ncmd + 1
@@ -101,7 +114,7 @@ GBegin == /\ drawn /\ ncmd < draws.n
 GStep == /\ drawn /\ Step
          /\ hist' = IF pc = "close" THEN Append(hist, [out |-> out, tag |-> tag', have |-> tman', xt |-> xt']) ELSE hist
          /\ UNCHANGED <<ncmd, draws, drawn, genv, iname>>
-GNext == GDraw \/ GDrawEach \/ GBegin \/ GStep
+GNext == GDraw \/ GDrawEach \/ GDrawDirected \/ GBegin \/ GStep
 GSpec == GInit /\ [][GNext]_gvars
 
 Finished == drawn /\ pc = "idle" /\ ncmd = draws.n
